@@ -149,11 +149,56 @@ def launch_monitor(dag2, which, scripts, hash_ws, use_tmp):
     from maestrowf.interfaces import ScriptAdapterFactory
     from maestrowf.interfaces.script import SubmissionRecord
     launches = []
-    classes = {ScriptAdapterFactory.get_adapter(which), ScriptAdapterFactory.get_adapter("local")}
+    written = []       # (instance, file the local adapter opened for writing)
+    local_cls = ScriptAdapterFactory.get_adapter("local")
+    classes = {ScriptAdapterFactory.get_adapter(which), local_cls}
     saved = [(c, c.__dict__.get("submit"), c.__dict__.get("check_jobs")) for c in classes]
+    real_local_submit = local_cls.__dict__.get("submit")
+    import maestrowf.interfaces.script.localscriptadapter as LSA
+
+    class _Proc(object):
+        def __init__(self, pid):
+            self.pid = pid
+
+        def communicate(self):
+            return "", ""
+
+        def wait(self):
+            return 0
+
+    class _Sink(object):
+        def write(self, _t):
+            pass
+
+        def __enter__(self):
+            return self
+
+        def __exit__(self, *a):
+            return False
 
     def submit(self, step, path, cwd, job_map=None, env=None):
         launches.append((step.real_name, path, cwd))
+        if isinstance(self, local_cls) and real_local_submit is not None:
+            # the real local `submit`, with the process and the files it opens replaced: where the
+            # captured stdout / stderr of this instance would be written
+            def _open(fp, mode="r", *a, **k):
+                if any(ch in mode for ch in "wax+"):
+                    written.append((step.real_name, str(fp)))
+                    return _Sink()
+                return open(fp, mode, *a, **k)
+            old = (LSA.__dict__.get("start_process"), LSA.__dict__.get("open"))
+            LSA.start_process = lambda *a, **k: _Proc(4000 + len(launches))
+            LSA.open = _open
+            try:
+                real_local_submit(self, step, path, cwd, job_map=job_map, env=env)
+            except Exception:  # noqa   (what a failing launch does is C19's)
+                pass
+            finally:
+                LSA.start_process = old[0]
+                if old[1] is None:
+                    del LSA.open
+                else:
+                    LSA.open = old[1]
         return SubmissionRecord(SubmissionCode.OK, 0, len(launches))
 
     def check_jobs(self, joblist):
@@ -183,6 +228,13 @@ def launch_monitor(dag2, which, scripts, hash_ws, use_tmp):
         if os.path.normpath(cwd) != os.path.normpath(ws):
             mon.append(("writes-inside", "%s: instance %r is launched (script %s) with working directory %s; "
                         "its workspace is %s" % (tag, name, path, cwd, ws)))
+    for name, fp in written:
+        if name not in scripts:
+            continue
+        ws = os.path.normpath(scripts[name][0])
+        if os.path.dirname(os.path.normpath(os.path.join(ws, fp))) != ws:
+            mon.append(("writes-inside", "%s: the local adapter writes %s for instance %r, outside its "
+                        "workspace %s" % (tag, fp, name, ws)))
     return mon[:3]
 
 
